@@ -111,6 +111,19 @@ class C14(props.Prop):
                                rng.randint(1, 5)))
         text = gen_input.gen_script(rng, feats=feats,
                                     size=rng.choice([1, 2, 3]))
+        if rng.random() < 0.3:
+            # ill-formed (too short) declarations at random positions: they
+            # declare nothing, and must not hide the declarations after them
+            lines = text.rstrip('\n').split('\n')
+            first = 0
+            while first < len(lines) and lines[first].startswith('(set-'):
+                first += 1
+            for _ in range(rng.choice([1, 1, 2])):
+                junk = rng.choice(['(declare-const junk)', '(declare-fun f)',
+                                   '(define-fun g ())', '(define-sort S)',
+                                   '(declare-const)', '(declare-fun h ())'])
+                lines.insert(rng.randint(first, len(lines)), junk)
+            text = '\n'.join(lines) + '\n'
         spec = workload.base_spec(rng,
                                   jobs=(1, 1, 2),
                                   model_style=rng.choice(['contains', 'count',
